@@ -261,6 +261,14 @@ def read_files(
         normalize_paths_argument_to_list(dsdl_files),
         normal_root_namespace_directories_or_names,
     )
+    # The directories are validated even if there is nothing to read from them.
+    root_namespaces = {f.root_namespace_path.resolve() for f in target_dsdl_definitions}
+    lookup_directories_path_list = _construct_lookup_directories_path_list(
+        itertools.chain(root_namespaces, filter(lambda x: x.exists(), normal_root_namespace_directories_or_names)),
+        normalize_paths_argument_to_list(lookup_directories),
+        True,
+    )
+
     if len(target_dsdl_definitions) == 0:
         _logger.info("No DSDL files found in the specified directories")
         return ([], [])
@@ -270,13 +278,6 @@ def read_files(
 
         for x in target_dsdl_definitions:
             _logger.debug(_LOG_LIST_ITEM_PREFIX + str(x.file_path))
-
-    root_namespaces = {f.root_namespace_path.resolve() for f in target_dsdl_definitions}
-    lookup_directories_path_list = _construct_lookup_directories_path_list(
-        itertools.chain(root_namespaces, filter(lambda x: x.exists(), normal_root_namespace_directories_or_names)),
-        normalize_paths_argument_to_list(lookup_directories),
-        True,
-    )
 
     definitions = _complete_read_function(
         target_dsdl_definitions,
